@@ -33,6 +33,7 @@ Inductive qscript : list micro -> Prop :=
   | q_exec : forall w ms, qscript ms -> qscript (Exec w :: CondCommit 1 :: ms)
   | q_many : forall ws ms, qscript ms ->
       qscript (ExecMany ws :: CondCommit (Z.of_nat (length ws)) :: ms)
+  | q_many_nil : forall ms, qscript ms -> qscript (ExecMany [] :: ms)
   | q_bucket1 : forall w ms, qscript ms -> qscript (Exec w :: Commit :: ms)
   | q_bucket2 : forall w1 w2 ms, qscript ms -> qscript (Exec w1 :: Exec w2 :: Commit :: ms).
 
@@ -235,7 +236,7 @@ Qed.
 Lemma qscript_quiet : forall ms, qscript ms ->
   forall lazy tr s, map fst tr = ms -> quiet s -> quiet (run lazy s tr).
 Proof.
-  induction 1 as [|ms Hq IH|ms Hq IH|w ms Hq IH|ws ms Hq IH|w ms Hq IH|w1 w2 ms Hq IH];
+  induction 1 as [|ms Hq IH|ms Hq IH|w ms Hq IH|ws ms Hq IH|ms Hq IH|w ms Hq IH|w1 w2 ms Hq IH];
     intros lazy tr s Htr Hs.
   - destruct tr; [exact Hs|discriminate].
   - apply map_fst_cons in Htr. destruct Htr as (c & tr' & -> & Htr).
@@ -250,6 +251,9 @@ Proof.
     apply map_fst_cons in Htr. destruct Htr as (c2 & tr2 & -> & Htr).
     rewrite !run_cons. apply IH; [assumption|].
     unfold micro_step. cbn [fst snd]. apply quiet_block; [assumption|reflexivity].
+  - apply map_fst_cons in Htr. destruct Htr as (c & tr' & -> & Htr).
+    rewrite run_cons. apply IH; [assumption|].
+    destruct Hs as [Hn Hle]. unfold micro_step, quiet. cbn. rewrite app_nil_r. auto.
   - apply map_fst_cons in Htr. destruct Htr as (c1 & tr1 & -> & Htr).
     apply map_fst_cons in Htr. destruct Htr as (c2 & tr2 & -> & Htr).
     rewrite !run_cons. apply IH; [assumption|].
@@ -272,32 +276,33 @@ Proof.
   cbn [flat_map script_replace app]. apply q_exec. exact IH.
 Qed.
 
-Lemma qscript_expand : forall o, qscript (expand o).
+Lemma qscript_expand : forall o, counted o -> qscript (expand o).
 Proof.
+  intros o Hc.
   destruct o; cbn [expand script_replace script_get_metadata app];
     repeat (first [apply q_nil | apply q_read | apply q_commit | apply q_exec
                   | apply q_bucket1 | apply q_bucket2]).
   - apply qscript_upserts. apply q_many. apply q_nil.
   - destruct limit0; repeat constructor.
-  - rewrite <- (app_nil_r (flat_map _ _)). apply qscript_upserts. apply q_nil.
+  - destruct done; [|contradiction]. apply qscript_upserts. apply q_many_nil. apply q_nil.
 Qed.
 
-Lemma qscript_expand_all : forall h, qscript (expand_all h).
+Lemma qscript_expand_all : forall h, Forall counted h -> qscript (expand_all h).
 Proof.
-  induction h as [|o h IH]; [apply q_nil|].
-  unfold expand_all. cbn [flat_map]. apply qscript_app; [apply qscript_expand|exact IH].
+  induction 1 as [|o h Ho Hh IH]; [apply q_nil|].
+  unfold expand_all. cbn [flat_map]. apply qscript_app; [apply qscript_expand; exact Ho|exact IH].
 Qed.
 
 Lemma quiet_init : forall c0 t0, quiet (init c0 t0).
 Proof. intros. unfold quiet, THRESHOLD. cbn. lia. Qed.
 
 Lemma bounded_loss_quiescent : forall lazy c0 t0 h tr,
-  map fst tr = expand_all h ->
+  Forall counted h -> map fst tr = expand_all h ->
   let s := run lazy (init c0 t0) tr in
   n_unc s = Z.of_nat (length (pending s)) /\ (length (pending s) <= 50)%nat /\
   recover s ++ pending s = c0 ++ writes_of (expand_all h).
 Proof.
-  intros lazy c0 t0 h tr Htr s.
+  intros lazy c0 t0 h tr Hcnt Htr s.
   assert (Hq : quiet s).
   { apply qscript_quiet with (ms := expand_all h); auto using qscript_expand_all, quiet_init. }
   destruct Hq as [Hn Hle]. unfold THRESHOLD in Hle. repeat split; [exact Hn|lia|].
@@ -307,13 +312,13 @@ Qed.
 (* a crash at any micro-step of the call in flight: at most 50 of the writes of the
    completed calls are missing, so at most 50 + (writes of the call in flight) in all *)
 Lemma bounded_loss_any_cut : forall lazy c0 t0 h o tr tro k,
-  map fst tr = expand_all h -> map fst tro = expand o ->
+  Forall counted h -> map fst tr = expand_all h -> map fst tro = expand o ->
   let s := run lazy (init c0 t0) (tr ++ firstn k tro) in
   (length c0 + length (writes_of (expand_all h)) <= length (recover s) + 50)%nat /\
   (length (pending s) <= 50 + length (writes_of (expand o)))%nat.
 Proof.
-  intros lazy c0 t0 h o tr tro k Htr Htro s.
-  pose proof (bounded_loss_quiescent lazy c0 t0 h tr Htr) as (Hn & Hle & Hall).
+  intros lazy c0 t0 h o tr tro k Hcnt Htr Htro s.
+  pose proof (bounded_loss_quiescent lazy c0 t0 h tr Hcnt Htr) as (Hn & Hle & Hall).
   cbv zeta in Hn, Hle, Hall.
   set (s1 := run lazy (init c0 t0) tr) in *.
   assert (Hs : s = run lazy s1 (firstn k tro)) by (unfold s, s1; apply run_app).
@@ -329,6 +334,19 @@ Proof.
   destruct (firstn_twrites_prefix k tro) as [q Hq]. apply (f_equal (@length Z)) in Hq.
   rewrite app_length in Hq. unfold twrites in Hq at 2. rewrite Htro in Hq.
   unfold recover in H1. lia.
+Qed.
+
+(* without the hypothesis the bound fails: two bulk inserts of 31 rows that each raise on
+   their 32nd row leave 62 writes pending and the counter at 0 *)
+Lemma bounded_loss_refuted :
+  exists h tr, map fst tr = expand_all h /\
+    let s := run true (init [] 0) tr in
+    (length (pending s) > 50)%nat /\ n_unc s = 0 /\ recover s = [].
+Proof.
+  exists [InsertManyFailed [] (map Z.of_nat (seq 0 31)); InsertManyFailed [] (map Z.of_nat (seq 100 31))].
+  eexists (map (fun m => (m, mkClk 0 0 0)) _). split.
+  - rewrite map_map. cbn [fst]. apply map_id.
+  - vm_compute. repeat split. lia.
 Qed.
 
 (* ---- bucket operations are durable when they return ---- *)
